@@ -49,6 +49,10 @@ def generate(seed, tier="quick"):
     n = 0
     for f in prog["files"]:
         f["header"] = W.gen_layout_c03(lr)
+        if not f["header"].get("eol") and not f["header"].get("tabs") and sub(seed, "mixed-eol" + f["name"]).random() < 0.05:
+            f["header"]["eol"] = "mixed"
+        if sub(seed, "bom" + f["name"]).random() < 0.06:
+            f["header"]["bom"] = True  # the file starts with a UTF-8 byte order mark (editors on windows write one)
         for t in f["tests"]:
             for e in t["events"]:
                 if e.get("t") == "cmp":
@@ -111,7 +115,8 @@ def execute(case, ctx):
         for k in list(files):
             if k.startswith("test_") and "\r" not in files[k] and "\t" not in files[k]:
                 try:
-                    files[k] = black.format_str(files[k], mode=black.FileMode())
+                    mark = "\ufeff" if files[k].startswith("\ufeff") else ""
+                    files[k] = mark + black.format_str(files[k][len(mark):], mode=black.FileMode())
                 except Exception:
                     continue
                 if case.get("edge") == "no-final-newline":
@@ -151,6 +156,12 @@ def execute(case, ctx):
             except UnicodeDecodeError:
                 viol("valid-python", "file-not-utf8-after-rewrite", fn)
                 continue
+            if old_t.startswith("\ufeff") != new_t.startswith("\ufeff"):
+                viol("outside-untouched", "byte-order-mark-" + ("lost" if old_t.startswith("\ufeff") else "added"), f"step {si} {fn} flags={flags} fmt={fmt_tag(fmt)} driver={driver}")
+            bom_o, bom_n = old_t[:1] == "\ufeff", new_t[:1] == "\ufeff"
+            if bom_o:
+                ctx.count("probe_file_with_byte_order_mark_rewritten")
+            old_t, new_t = old_t.lstrip("\ufeff"), new_t.lstrip("\ufeff")
             try:
                 compile(new_t, fn, "exec", dont_inherit=True)  # more than ast.parse: also `from __future__` placement, duplicate arguments ...
                 osites = P.find_sites(old_t)
@@ -185,7 +196,7 @@ def execute(case, ctx):
                 if mo != mn:
                     # narrow signature for the listed finding: only the line ends changed
                     if mo.replace(b"\r\n", b"\n") == mn.replace(b"\r\n", b"\n"):
-                        sig = "line-ends-normalised:" + ("crlf" if b"\r\n" in mo else "other")
+                        sig = "line-ends-normalised:" + ("mixed" if b"\r\n" in mo and b"\n" in mo.replace(b"\r\n", b"") else "crlf" if b"\r\n" in mo else "other")
                     else:
                         sig = "bytes-outside-changed-arguments-differ"
                     a, b = mo.decode("utf-8", "replace"), mn.decode("utf-8", "replace")
